@@ -687,7 +687,7 @@ func (s *Subscriber) idleHandlerCleaner() {
 		case now := <-t.C:
 			s.handlersMutex.Lock()
 			for pid, hnd := range s.handlers {
-				if now.After(hnd.expires) {
+				if now.After(hnd.expires) && hnd.idle() {
 					delete(s.handlers, pid)
 					log.Debugw("Removed idle handler", "peer", pid)
 				}
@@ -699,6 +699,25 @@ func (s *Subscriber) idleHandlerCleaner() {
 			return
 		}
 	}
+}
+
+// idle reports whether the handler has no sync running or waiting to run and
+// no announcement pending. A handler whose sync outlasts the idle-handler TTL
+// must not be removed: a replacement handler would have its own locks, and a
+// second sync of the same publisher could then run at the same time.
+func (h *handler) idle() bool {
+	if h.pendingMsg.Load() != nil {
+		return false
+	}
+	if !h.asyncMutex.TryLock() {
+		return false
+	}
+	defer h.asyncMutex.Unlock()
+	if !h.syncMutex.TryLock() {
+		return false
+	}
+	h.syncMutex.Unlock()
+	return true
 }
 
 // watch fetches announce messages from the Reciever.
